@@ -1,4 +1,5 @@
 import CattrsModel.Core.Wire
+import CattrsModel.Conv.Encoding
 /-!
 # Line-protocol operations of the data-path model (driver only)
 -/
@@ -70,6 +71,11 @@ def convHandle (w : World) (op : String) (args : List Sexp) : Option Sexp :=
         match stF w cfg.core ty o with
         | some v => some (replyObj v)
         | Option.none => some (.list [.atom "err"])
+  | "C03SCOPE", [cfg, ty, o] => do
+      -- hypotheses of the C03 theorems on this case, and the model's own primitive-only verdict
+      let cfg ← cfgOfSexp cfg; let ty ← tyOfSexp ty; let o ← objOfSexp o
+      some (.list [ofBool (wellTyped w ty o), ofBool (ty.supU cfg.gen && w.supUB cfg.gen),
+                   ofBool ((convUnstructure w cfg ty o).prim (!cfg.gen))])
   | "CONF", [ty, o] => do
       let ty ← tyOfSexp ty; let o ← objOfSexp o
       some (ofBool (conf w ty o))
